@@ -30,6 +30,7 @@ type Env struct {
 	inSpec      *specTranslation
 	hdrBlock    interface{}
 	phiOverride map[*ssa.Phi]Val
+	inQuant     bool // under a quantifier: no side assumptions may be emitted (they would mention bound variables)
 }
 
 type specTranslation struct {
@@ -81,6 +82,25 @@ func (e *Env) specSort(ty string) (Sort, types.Type) {
 }
 
 func (e *Env) lookupType(name string) types.Type {
+	name = strings.TrimSpace(name)
+	if strings.HasPrefix(name, "[]") {
+		el := e.lookupType(name[2:])
+		if el == nil {
+			return nil
+		}
+		return types.NewSlice(el)
+	}
+	if strings.HasPrefix(name, "map[") {
+		// map[K]V with K free of brackets
+		if i := strings.Index(name, "]"); i > 0 {
+			k, v := e.lookupType(name[4:i]), e.lookupType(name[i+1:])
+			if k == nil || v == nil {
+				return nil
+			}
+			return types.NewMap(k, v)
+		}
+		return nil
+	}
 	ptr := 0
 	for strings.HasPrefix(name, "*") {
 		ptr++
@@ -126,9 +146,31 @@ func (e *Env) importedPkg(name string) *types.Package {
 	if e.pkg.Name() == name {
 		return e.pkg
 	}
+	// import aliases as written in the package's source files
+	if path, ok := e.c.prog.importAlias(e.pkg.Path(), name); ok {
+		if tp := e.c.prog.typesPkg(path); tp != nil {
+			return tp
+		}
+		for _, imp := range e.pkg.Imports() {
+			if imp.Path() == path {
+				return imp
+			}
+		}
+	}
+	// packages of this module take precedence over same-named dependencies (e.g. "types")
+	for _, imp := range e.pkg.Imports() {
+		if imp.Name() == name && strings.HasPrefix(imp.Path(), modulePath) {
+			return imp
+		}
+	}
 	for _, imp := range e.pkg.Imports() {
 		if imp.Name() == name {
 			return imp
+		}
+	}
+	for _, p := range e.c.prog.SSA.AllPackages() {
+		if p.Pkg.Name() == name && strings.HasPrefix(p.Pkg.Path(), modulePath) {
+			return p.Pkg
 		}
 	}
 	// fall back: any loaded package with that name
@@ -259,6 +301,7 @@ func (e *Env) eval(x Expr) SVal {
 		return e.evalCall(n)
 	case *EQuant:
 		ne := e.child()
+		ne.inQuant = true
 		var binds []string
 		for _, qv := range n.Vars {
 			s, ty := e.specSort(qv.Type)
@@ -308,10 +351,16 @@ func (e *Env) evalBin(n *EBin) SVal {
 			return e.errf("'in' needs a map")
 		}
 		dn, _, _ := e.c.mapNames(mt)
-		return SVal{T: tAnd(tNot(tEq(m.T, intLit(0))), tSelect(tSelect(e.heap(e.cur, dn), m.T), k.T))}
+		return SVal{T: tAnd(tNot(tEq(m.T, intLit(0))), tSelect(tSelect(e.heap(e.cur, dn), m.T), e.c.mapKey(mt, k.T)))}
 	}
 	a, b := e.eval(n.L), e.eval(n.R)
 	a, b = e.unify(a, b)
+	// comparison of a slice with nil
+	if _, isNil := n.R.(*ENil); isNil && a.T.Sort == SSlice {
+		a, b = SVal{T: mk(SInt, "(s.arr "+a.T.S+")")}, SVal{T: intLit(0)}
+	} else if _, isNil := n.L.(*ENil); isNil && b.T.Sort == SSlice {
+		a, b = SVal{T: intLit(0)}, SVal{T: mk(SInt, "(s.arr "+b.T.S+")")}
+	}
 	real := a.T.Sort == SReal
 	switch n.Op {
 	case "==":
@@ -424,7 +473,7 @@ func (e *Env) selectField(x SVal, fi int) SVal {
 		u := st.Underlying().(*types.Struct)
 		fn := c.fieldArrayName(st, fi)
 		res := c.sel(e.heap(e.cur, fn), x.T)
-		if e.inSpec == nil && e.cur != nil {
+		if e.inSpec == nil && e.cur != nil && !e.inQuant {
 			c.bornNow(res)
 			c.assumeLoadedRef(e.cur, fn, u.Field(fi).Type(), res)
 		}
@@ -448,12 +497,16 @@ func (e *Env) evalIdx(n *EIdx) SVal {
 	switch u := x.Type.Underlying().(type) {
 	case *types.Slice:
 		en := c.elemName(c.sortOf(u.Elem()))
-		return SVal{T: tSelect(tSelect(e.heap(e.cur, en), mk(SInt, "(s.arr "+x.T.S+")")), mk(SInt, fmt.Sprintf("(+ (s.off %s) %s)", x.T.S, i.T.S))), Type: u.Elem()}
+		return SVal{T: tSelect(tSelect(e.heap(e.cur, en), mk(SInt, "(s.arr "+x.T.S+")")), mk(SInt, fmt.Sprintf("(sidx %s %s)", x.T.S, i.T.S))), Type: u.Elem()}
 	case *types.Array:
 		return SVal{T: tSelect(x.T, i.T), Type: u.Elem()}
 	case *types.Map:
 		_, vn, _ := c.mapNames(u)
-		return SVal{T: tSelect(tSelect(e.heap(e.cur, vn), x.T), i.T), Type: u.Elem()}
+		// Go semantics: a missing key (or nil map) reads as the zero value
+		dn, _, _ := c.mapNames(u)
+		k := c.mapKey(u, i.T)
+		present := tAnd(tNot(tEq(x.T, intLit(0))), tSelect(tSelect(e.heap(e.cur, dn), x.T), k))
+		return SVal{T: tIte(present, tSelect(tSelect(e.heap(e.cur, vn), x.T), k), c.zeroTerm(u.Elem())), Type: u.Elem()}
 	case *types.Pointer:
 		if a, ok := u.Elem().Underlying().(*types.Array); ok {
 			cn := c.cellName(c.sortOf(u.Elem()))
@@ -463,7 +516,12 @@ func (e *Env) evalIdx(n *EIdx) SVal {
 	return e.errf("cannot index %s", x.Type)
 }
 
-func (c *Ctx) ghostName(g *GhostDecl, e *Env) string {
+func (c *Ctx) ghostName(g *GhostDecl, e0 *Env) string {
+	// types in a ghost declaration are resolved in the declaring package
+	e := &Env{c: c, vars: map[string]SVal{}, pkg: c.prog.typesPkg(g.Pkg), g: tTrue}
+	if e.pkg == nil {
+		e = e0
+	}
 	s, _ := e.specSort(g.Ret)
 	for i := len(g.Keys) - 1; i >= 0; i-- {
 		ks, _ := e.specSort(g.Keys[i].Type)
@@ -613,7 +671,11 @@ func (e *Env) evalCall(n *ECall) SVal {
 		for i := range n.Args {
 			t = tSelect(t, arg(i).T)
 		}
-		_, ty := e.specSort(g.Ret)
+		ge := &Env{c: c, vars: map[string]SVal{}, pkg: c.prog.typesPkg(g.Pkg), g: tTrue}
+		if ge.pkg == nil {
+			ge = e
+		}
+		_, ty := ge.specSort(g.Ret)
 		return SVal{T: t, Type: ty}
 	}
 	// spec function
@@ -698,10 +760,29 @@ func (c *Ctx) declareSpec(sf *SpecFunc, e *Env) []string {
 			if body.T.Sort != rs && rs == SReal && body.T.Sort == SInt {
 				body = SVal{T: app(SReal, "to_real", body.T)}
 			}
-			if len(ps) == 0 {
+			recursive := strings.Contains(body.T.S, "(spec!"+sf.Name+" ")
+			switch {
+			case len(ps) == 0:
 				c.decls = append(c.decls, fmt.Sprintf("(define-fun spec!%s () %s %s)", sf.Name, rs, body.T.S))
-			} else {
-				c.decls = append(c.decls, fmt.Sprintf("(define-fun-rec spec!%s (%s) %s %s)", sf.Name, strings.Join(ps, " "), rs, body.T.S))
+			case !recursive:
+				c.decls = append(c.decls, fmt.Sprintf("(define-fun spec!%s (%s) %s %s)", sf.Name, strings.Join(ps, " "), rs, body.T.S))
+			default:
+				// recursive spec function: uninterpreted symbol + unfolding axiom triggered by applications
+				// (define-fun-rec made z3 time out on goals that this encoding decides in under a second)
+				var sorts, names []string
+				for _, p := range ps {
+					inner := p[1 : len(p)-1]
+					k := strings.Index(inner, " ")
+					names = append(names, inner[:k])
+					sorts = append(sorts, inner[k+1:])
+				}
+				c.decls = append(c.decls, fmt.Sprintf("(declare-fun spec!%s (%s) %s)", sf.Name, strings.Join(sorts, " "), rs))
+				// unfolding is done by ground instantiation at the applications occurring in each query (BuildQuery),
+				// to a fixed depth: predictable, and no matching loops
+				if c.recSpecs == nil {
+					c.recSpecs = map[string]*recSpec{}
+				}
+				c.recSpecs["spec!"+sf.Name] = &recSpec{params: names, body: body.T.S}
 			}
 			c.declared["spec!"+sf.Name] = rs
 			return heapParams
